@@ -41,8 +41,12 @@ def _factor(n):
     return None
 
 
-def gen_dataset(tape, ncomp=None, nmin=12, nmax=60, allow_2d=True, allow_extra=True, weights=None, tag="D"):
-    n = tape.randint(nmin, nmax, f"{tag}.n")
+def gen_dataset(tape, ncomp=None, nmin=12, nmax=60, allow_2d=True, allow_extra=True, weights=None, tag="D", allow_big=True, n=None):
+    if n is None:
+        n = tape.randint(nmin, nmax, f"{tag}.n")
+        if allow_big and tape.coin(0.05, f"{tag}.big"):
+            # size swarm: correctness must not silently depend on small inputs (chunked / approximate / cached paths)
+            n = tape.randint(150, 320, f"{tag}.n_big")
     rs = np.random.RandomState(tape.subseed(f"{tag}.seed"))
     if ncomp is None:
         ncomp = tape.weighted([(1, 5), (2, 3), (3, 1)], f"{tag}.ncomp")
